@@ -158,8 +158,11 @@ def shared_state(ctx, rule):
             imported = {(a.asname or a.name).split(".")[0] for g in _own_nodes(fn) if isinstance(g, (_ast.Import, _ast.ImportFrom)) for a in g.names}
             hits = []
             for n, base, what in _inplace_targets(fn):
-                if isinstance(base, _ast.Name) and base.id in mod_names and base.id not in local:
-                    hits.append((n, base.id, what))
+                root = base
+                while isinstance(root, (_ast.Attribute, _ast.Subscript)):   # _TABLE[k].append(v), logger.__dict__.setdefault(...)
+                    root = root.value
+                if isinstance(root, _ast.Name) and root.id in mod_names and root.id not in local:
+                    hits.append((n, root.id, what))
             for n in _own_nodes(fn):
                 if isinstance(n, _ast.Name) and isinstance(n.ctx, _ast.Store) and n.id in declared and n.id in mod_names and n.id not in imported:
                     hits.append((n, n.id, "rebinding through `global`"))
